@@ -5,8 +5,10 @@ package main
 import (
 	"context"
 	"database/sql"
+	"errors"
 	"fmt"
 	"hash/fnv"
+	"io"
 	"sort"
 	"strings"
 	"time"
@@ -37,6 +39,12 @@ import (
 //   rcfg stores=-,ia,cold map=<cls>:<store>,…|~         ("-" = the default store)
 //   rop remap map=<cls>:<store>,…|~     rres ok | rres err <hex>
 //   rop gc                              rres ok | rres err <hex>
+//   rop fault step=<j> kind=<open|read|put|putafter|close> close=<0|1> bytes=<n>     rres ok
+//        arms ONE part-store fault for the next operation: it strikes the j-th copy step (j-th GetPart
+//        call on any named store, 0-based) of that operation: GetPart fails / the returned reader breaks
+//        after n bytes / the PutPart that consumes this reader fails before or after writing / only the
+//        reader's Close fails (close=1: Close fails in addition). After the operation's "res …" line:
+//   rfault fired=<0|1>                  was the armed fault reached
 //   rt obj <b> <k> <vid> latest=<0|1> cls=<hex|~> read=<ok|err> dig=<fnv1a64> len=<n> parts=<seq>:<pid>@<store>/<size>,…|~
 //   rt up <u> cls=<hex|~> parts=…
 //   rt reg <pid>:<ref_count>,…|~
@@ -61,6 +69,7 @@ type s3hRoute struct {
 	st      storage.Storage
 	regRepo partregistry.Repository
 	pids    map[string]int
+	flt     *s3hFaultCtl
 }
 
 var s3hRoutes = map[*verifx.Stack]*s3hRoute{}
@@ -73,11 +82,11 @@ func s3hRouteInitialMap() map[string]string {
 // window is tiny, and the pieces are kept so that the storage can be rebuilt with another map.
 func newS3hRouteStack(dir string) *verifx.Stack {
 	env := verifx.NewStackEnv(dir)
-	rt := &s3hRoute{env: env, pids: map[string]int{}}
+	rt := &s3hRoute{env: env, pids: map[string]int{}, flt: &s3hFaultCtl{}}
 	rt.stores = []s3hRouteStore{
-		{"", env.Build(nil, "fs").Top},
-		{"ia", env.Build(nil, "fs").Top},
-		{"cold", env.Build(nil, "sql").Top},
+		{"", &s3hFaultStore{PartStore: env.Build(nil, "fs").Top, ctl: rt.flt}},
+		{"ia", &s3hFaultStore{PartStore: env.Build(nil, "fs").Top, ctl: rt.flt}},
+		{"cold", &s3hFaultStore{PartStore: env.Build(nil, "sql").Top, ctl: rt.flt}},
 	}
 	rt.ms = verifx.NewMeta(env.DB)
 	rt.regRepo = verifx.Must(repositoryfactory.NewPartRegistryRepository(env.DB))
@@ -163,6 +172,14 @@ func (rt *s3hRoute) rop(c *s3hCase, line string) bool {
 		} else {
 			c.out.Line("rres ok")
 		}
+	case "fault":
+		a := kv(t)
+		f := rt.flt
+		*f = s3hFaultCtl{armed: true, kind: a["kind"], closeToo: a["close"] == "1"}
+		fmt.Sscanf(a["step"], "%d", &f.step)
+		fmt.Sscanf(a["bytes"], "%d", &f.bytes)
+		c.out.Line("rres ok")
+		return true // no observation: nothing happened yet
 	default:
 		verifx.Fatalf("s3h: unknown routing op %q", line)
 	}
@@ -175,10 +192,115 @@ var s3hRouteMutators = map[string]bool{"put": true, "del": true, "cp": true, "ap
 
 // after prints the routing state after a mutating S3 operation.
 func (rt *s3hRoute) after(c *s3hCase, line string) {
+	if rt.flt.armed { // the fault was for this operation only
+		c.out.Line("rfault fired=%d", b2i(rt.flt.fired))
+		*rt.flt = s3hFaultCtl{}
+	}
 	t := strings.Fields(line)
 	if len(t) >= 2 && t[0] == "op" && s3hRouteMutators[t[1]] {
 		rt.observe(c)
 	}
+}
+
+// ---------------------------------------------------------------- part-store fault doubles
+
+var errS3hInjected = errors.New("injected part-store fault")
+
+// s3hFaultCtl is shared by the named stores of one stack: one armed fault at a time, striking
+// the step-th GetPart call (= copy step) of the running operation.
+type s3hFaultCtl struct {
+	armed    bool
+	step     int
+	kind     string // open | read | put | putafter | close
+	closeToo bool
+	bytes    int
+	gets     int
+	fired    bool
+	putNext  string // "" | put | putafter: the next PutPart fails
+}
+
+type s3hFaultStore struct {
+	partstore.PartStore
+	ctl *s3hFaultCtl
+}
+
+func (f *s3hFaultStore) Capabilities() partstore.Capabilities {
+	return partstore.CapabilitiesOf(f.PartStore)
+}
+
+type s3hFaultReader struct {
+	io.ReadCloser
+	left      int // bytes still delivered before the stream breaks; -1 = never
+	failClose bool
+}
+
+func (r *s3hFaultReader) Read(p []byte) (int, error) {
+	if r.left == 0 {
+		return 0, errS3hInjected
+	}
+	if r.left > 0 && len(p) > r.left {
+		p = p[:r.left]
+	}
+	n, err := r.ReadCloser.Read(p)
+	if r.left > 0 {
+		r.left -= n
+		if err == io.EOF { // the part is shorter than the break point: break at its end instead
+			return n, errS3hInjected
+		}
+	}
+	return n, err
+}
+
+func (r *s3hFaultReader) Close() error {
+	err := r.ReadCloser.Close()
+	if r.failClose {
+		return errS3hInjected
+	}
+	return err
+}
+
+func (f *s3hFaultStore) GetPart(ctx context.Context, tx database.Tx, id partstore.PartId) (io.ReadCloser, error) {
+	c := f.ctl
+	if !c.armed || c.fired {
+		return f.PartStore.GetPart(ctx, tx, id)
+	}
+	idx := c.gets
+	c.gets++
+	if idx != c.step {
+		return f.PartStore.GetPart(ctx, tx, id)
+	}
+	c.fired = true
+	if c.kind == "open" {
+		return nil, errS3hInjected
+	}
+	rc, err := f.PartStore.GetPart(ctx, tx, id)
+	if err != nil {
+		return nil, err
+	}
+	fr := &s3hFaultReader{ReadCloser: rc, left: -1, failClose: c.closeToo || c.kind == "close"}
+	switch c.kind {
+	case "read":
+		fr.left = c.bytes
+	case "put", "putafter":
+		c.putNext = c.kind
+	}
+	return fr, nil
+}
+
+func (f *s3hFaultStore) PutPart(ctx context.Context, tx database.Tx, id partstore.PartId, r io.Reader) error {
+	c := f.ctl
+	if c.armed && c.putNext != "" {
+		k := c.putNext
+		c.putNext = ""
+		if k == "put" {
+			return errS3hInjected
+		}
+		if err := f.PartStore.PutPart(ctx, tx, id, r); err != nil {
+			return err
+		}
+		return errS3hInjected
+	}
+	return f.PartStore.PutPart(ctx, tx, id, r)
 }
 
 type s3hRouteObj struct {
@@ -462,6 +584,19 @@ func s3hRouteMaybeRop(g *s3hGen) string {
 	return ""
 }
 
+// s3hRouteMaybeFault: before a transition or a copy, now and then arm a part-store fault for one of
+// its first copy steps.
+func s3hRouteMaybeFault(g *s3hGen, line string) string {
+	t := strings.Fields(line)
+	if len(t) < 2 || t[0] != "op" || (t[1] != "trans" && t[1] != "cp") || !g.r.Chance(1, 3) {
+		return ""
+	}
+	r := g.r
+	kind := verifx.Pick(r, []string{"open", "read", "read", "put", "put", "putafter", "close"})
+	return fmt.Sprintf("rop fault step=%d kind=%s close=%d bytes=%d", verifx.Pick(r, []int{0, 0, 0, 1, 1, 2}), kind,
+		b2i(r.Chance(1, 3)), verifx.Pick(r, []int{0, 0, 1, 5, 400}))
+}
+
 // s3hRouteDirected: hand-written routing histories (stack "route"; initial table
 // STANDARD_IA→ia, GLACIER→cold, DEEP_ARCHIVE→cold).
 func s3hRouteDirected() [][]string {
@@ -506,6 +641,28 @@ func s3hRouteDirected() [][]string {
 			"op mkb b0", "rop remap map=GLACIER:default,STANDARD:ia", "op ver b0 E", "op put b0 k0 " + X + cls("GLACIER") + " inm=0 im=~",
 			"op put b0 k1 " + X + none + " inm=0 im=~", "op ver b0 S", "op app b0 k0 " + X + " off=~", "op get b0 k0 vid=~", "op get b0 k0 vid=v0",
 			"op trans b0 k0 STANDARD vid=v0", "op trans b0 k0 STANDARD vid=null", "op del b0 k0 vid=v0 im=~", "rop gc", "op get b0 k0 vid=null", "op get b0 k1 vid=~",
+		},
+		{ // part-store faults at the copy steps of cross-store transitions: target write fails (first / second step,
+			// before / after the bytes arrived), source stream breaks, GetPart fails, only Close fails; then the same for a copy
+			"op mkb b0", "op put b0 k0 " + Y + none + " inm=0 im=~", "op app b0 k0 " + X + " off=~",
+			"rop fault step=0 kind=put close=0 bytes=0", "op trans b0 k0 GLACIER vid=~", "op get b0 k0 vid=~",
+			"rop fault step=1 kind=put close=0 bytes=0", "op trans b0 k0 GLACIER vid=~", "op get b0 k0 vid=~",
+			"rop fault step=1 kind=putafter close=1 bytes=0", "op trans b0 k0 STANDARD_IA vid=~", "op get b0 k0 vid=~",
+			"rop fault step=0 kind=read close=0 bytes=5", "op trans b0 k0 GLACIER vid=~", "op get b0 k0 vid=~",
+			"rop fault step=0 kind=read close=1 bytes=0", "op trans b0 k0 GLACIER vid=~", "op get b0 k0 vid=~",
+			"rop fault step=1 kind=open close=0 bytes=0", "op trans b0 k0 GLACIER vid=~", "op get b0 k0 vid=~",
+			"rop fault step=0 kind=close close=1 bytes=0", "op trans b0 k0 GLACIER vid=~", "op get b0 k0 vid=~",
+			"rop fault step=5 kind=put close=0 bytes=0", "op trans b0 k0 STANDARD_IA vid=~", "op get b0 k0 vid=~",
+			"rop fault step=0 kind=put close=0 bytes=0", "op trans b0 k0 STANDARD_IA vid=~", "op get b0 k0 vid=~",
+			"rop fault step=0 kind=put close=0 bytes=0", "op cp b0 k0 b0 k1 svid=~ mdir=C tdir=C" + cls("GLACIER"), "op get b0 k1 vid=~",
+			"rop fault step=1 kind=read close=0 bytes=0", "op cp b0 k0 b0 k1 svid=~ mdir=C tdir=C" + cls("GLACIER"), "op get b0 k1 vid=~", "op get b0 k0 vid=~",
+			"rop fault step=0 kind=close close=1 bytes=0", "op cp b0 k0 b0 k1 svid=~ mdir=C tdir=C" + cls("GLACIER"), "op get b0 k1 vid=~", "rop gc", "op get b0 k0 vid=~",
+		},
+		{ // a noncurrent version (tiered by its version id) under a source-read fault; shared part with the current version
+			"op mkb b0", "op ver b0 E", "op put b0 k0 " + Y + none + " inm=0 im=~", "op put b0 k0 " + Y + none + " inm=0 im=~", "op get b0 k0 vid=v0",
+			"rop fault step=0 kind=read close=0 bytes=3", "op trans b0 k0 GLACIER vid=v0", "op get b0 k0 vid=v0", "op get b0 k0 vid=v1",
+			"rop fault step=0 kind=putafter close=0 bytes=0", "op trans b0 k0 GLACIER vid=v0", "op get b0 k0 vid=v0", "op get b0 k0 vid=v1",
+			"op trans b0 k0 GLACIER vid=v0", "op get b0 k0 vid=v0", "op get b0 k0 vid=v1", "rop gc", "op get b0 k0 vid=v0",
 		},
 	}
 }
